@@ -25,6 +25,19 @@ theorem start_unknown (s : Sys) (t : Tid) (id : Nat) (n : Name) (hk : (s.thr t).
   have : ¬ n < s.cfgs.length := Nat.not_lt.mpr hn
   simp only [armSpawnOrLock, this, apiRet, hk, ↓reduceIte]
 
+theorem restart_unknown (s : Sys) (t : Tid) (h : Hints) (id : Nat) (n : Name) (hk : (s.thr t).kind = .api id (.restart n))
+    (hn : s.cfgs.length ≤ n) (hr : s.running.getD n none = none) :
+    apiFirst s t h (.restart n) = (s.emit (.ret id "no-such")).setPc t .finished := by
+  have : ¬ n < s.cfgs.length := Nat.not_lt.mpr hn
+  simp only [apiFirst, hr, this, apiRet, hk, ↓reduceIte]
+
+/-- A restart request on a configured process that is not registered goes straight to the start
+    (nothing to stop, no back-off to sit out): it only moves the caller to the registering label. -/
+theorem restart_when_not_registered (s : Sys) (t : Tid) (h : Hints) (n : Name)
+    (hn : n < s.cfgs.length) (hr : s.running.getD n none = none) :
+    apiFirst s t h (.restart n) = s.setPc t (.lockSpawn n) := by
+  simp only [apiFirst, hr, hn, ↓reduceIte]
+
 /-- A stop request marks the instance do-not-restart before anything else. -/
 theorem stop_sets_flag (s : Sys) (t : Tid) (h : Hints) (n : Name) (i : IId) (hr : s.running.getD n none = some i)
     (hi : i < s.insts.length) :
